@@ -10,13 +10,13 @@ class C06(FragHarness):
     def spaces(self, tier, seed):
         q = tier == 'quick'
         out = []
-        for nlw in (0, 1, 2) + (() if q else (3,)):
+        for nlw in (0, 1, 2, 3):
             for n in range(0, (4 if q else 6) + 1):
                 out.append({'algo': 'F', 'num': 'int', 'n': n, 'nlw': nlw, 'B': 1 << 40, 'LB': 1 << 52, 'SB': 1 << 20, 'PB': 1 << 20})
             for n in range(0, (2 if q else 3) + 1):
                 out.append({'algo': 'F', 'num': 'fp', 'n': n, 'nlw': nlw, 'float_mode': 'fp'})
             for n in range(0, (3 if q else 4) + 1):
-                if n == 4 and nlw != 1:
+                if (n == 4 and nlw != 1) or (nlw == 3 and (n < 3 or q)):
                     continue
                 out.append({'algo': 'O', 'num': 'int', 'n': n, 'nlw': nlw, 'B': 1 << 10, 'LB': 1 << 12, 'SB': 3, 'PB': 2})
         # symbolic penalties for optimal-fit
